@@ -49,7 +49,7 @@ func init() {
 		c.Enumerate("c01/ids")
 		c.Enumerate("c01/backpressure")
 		for _, mode := range []string{"sj", "ss", "sl", "sd", "ls", "io"} {
-			c.DFS(fmt.Sprintf("c01/%s/1c-2x1", mode), explore.Bounds{Preempt: c.Pick(2, 4), Dev: c.Pick(1, 2), POR: true})
+			c.DFSBoth(fmt.Sprintf("c01/%s/1c-2x1", mode), explore.Bounds{Preempt: c.Pick(2, 4), Dev: c.Pick(1, 2)}, map[bool]int{true: 0, false: 1}[mode == "ls" || mode == "io"])
 			c.DFS(fmt.Sprintf("c01/%s/mixed", mode), explore.Bounds{Preempt: c.Pick(1, 3), Dev: 1, POR: true})
 			if mode != "io" {
 				c.DFS(fmt.Sprintf("c01/%s/2c-1x1", mode), explore.Bounds{Preempt: c.Pick(1, 3), Dev: 1, POR: true})
@@ -59,8 +59,6 @@ func init() {
 				c.DFS(fmt.Sprintf("c01/%s/1c-2x2", mode), explore.Bounds{Preempt: 3, Dev: 1, POR: true})
 			}
 		}
-		// one plain (no reduction) exploration as a cross-check of the reduced ones
-		c.DFS("c01/sj/1c-2x1", explore.Bounds{Preempt: c.Pick(1, 2), Dev: 0})
 	})
 }
 
